@@ -28,7 +28,7 @@ Judged(rec) == "nomount" \notin DOMAIN rec.obs /\ "panic" \notin DOMAIN rec.obs
 
 Begin ==
   /\ l <= Len(Rec) /\ rphase = "new" /\ Judged(Rec[l])
-  /\ stack' = <<>> /\ deferred' = <<>> /\ out' = <<>> /\ errs' = 0 /\ phase' = "start" /\ skipped' = FALSE
+  /\ stack' = <<>> /\ deferred' = <<>> /\ out' = <<>> /\ errs' = 0 /\ phase' = "start" /\ skipped' = FALSE /\ held' = <<>>
   /\ j' = 1 /\ rphase' = "run" /\ rt' = 1 /\ UNCHANGED l
 
 NotJudged ==
@@ -54,7 +54,7 @@ MachineStep ==
 NextRoot ==
   /\ l <= Len(Rec) /\ rphase = "run" /\ phase = "done" /\ rt < Len(In.roots)
   /\ HasEv(j, "Done")
-  /\ stack' = <<>> /\ deferred' = <<>> /\ out' = <<>> /\ phase' = "start" /\ skipped' = FALSE /\ UNCHANGED errs
+  /\ stack' = <<>> /\ deferred' = <<>> /\ out' = <<>> /\ phase' = "start" /\ skipped' = FALSE /\ held' = <<>> /\ UNCHANGED errs
   /\ j' = j + 1 /\ rt' = rt + 1 /\ UNCHANGED <<l, rphase>>
 
 \* the loop is over: the code says so too, nothing else was logged, and the exit status tells of the errors
